@@ -299,6 +299,77 @@ def run(ctx):
             else:
                 ctx.ok(R_mip, {"fn": norm(f.path), "kind": kind, "bound": hirq.render(expr)[:60]})
 
+    # mip chain generation agrees with the header's level count: the generator stops only when BOTH dimensions are <= 1
+    R_gen = ctx.rule("C16.mip-generator-runs-to-1x1", "generate_mipmaps' stop test is false whenever the larger dimension is still > 1 (finite table over w, h in {1, 2, 3}) and the halved dimensions are clamped at 1", floor=1)
+    gm = next((f for f in blp.fn_list if f.hir and f.kind != "Closure" and norm(f.path) == "wow_blp::convert::mipmap::generate_mipmaps"), None)
+    from .c10 import _bval
+    if gm is None:
+        ctx.bad(R_gen, "generate_mipmaps|missing", "-", "function not found", "anchor gone")
+    else:
+        ctx.saw_fn(gm)
+        stop = next((n for n in hirq.find(gm.hir["body"], "if") if any(x.get("k") == "break" for x in hirq.walk(n["then"])) and re.search(r"width|height", hirq.render(n["c"]))), None)
+        if stop is None:
+            ctx.bad(R_gen, "generate_mipmaps|shape", gm.where, "no `if <dims> { break }` found", "shape changed")
+        else:
+            bad = None
+            try:
+                for w_ in (1, 2, 3):
+                    for h_ in (1, 2, 3):
+                        got = _bval(stop["c"], {"width": w_, "height": h_, "__leaf__": (lambda r_: 0 if r_.endswith(".len()") else None)}, {})
+                        want = (w_ <= 1 and h_ <= 1)
+                        if got != want and bad is None:
+                            bad = (w_, h_, got)
+            except _NoEval as e:
+                bad = ("?", "?", str(e))
+            halves = [hirq.render(l["init"]) for l in hirq.find(gm.hir["body"], "let") if l["pat"].get("k") == "bind" and re.search(r">> 1|/ 2", hirq.render(l["init"]))]
+            unclamped = [h_ for h_ in halves if "max(1)" not in h_]
+            if bad:
+                ctx.bad(R_gen, "generate_mipmaps|stop-test", "%s:%d" % (gm.file, stop["ln"]), "stop test `%s` is %s for a %sx%s image" % (hirq.render(stop["c"])[:60], bad[2], bad[0], bad[1]),
+                        "BlpHeader::mipmaps_count (which every parser trusts) counts levels until the LARGER dimension reaches 1: a non-square texture is written with fewer levels than its header announces — BLP0 fails to parse back, JPEG/DXT parse phantom empty levels, and the chain never reaches 1×1")
+            elif unclamped:
+                ctx.bad(R_gen, "generate_mipmaps|halving-unclamped", gm.where, "halved dimension `%s` is not clamped at 1" % unclamped[0][:50], "the shorter side reaches 0 before the longer one reaches 1")
+            else:
+                ctx.ok(R_gen, {"stop_test": hirq.render(stop["c"])[:70], "halving": halves})
+
+    # DXT levels are whole 4x4 blocks per dimension
+    R_dxt = ctx.rule("C16.dxt-block-count-per-dimension", "parse_dxtn sizes a level as ceil(w/4)·ceil(h/4) blocks (evaluated for w, h in 1..9)", floor=1)
+    pdx = next((f for f in blp.fn_list if f.hir and f.kind != "Closure" and norm(f.path).endswith("parser::direct::blp2::parse_dxtn")), None)
+    if pdx is None:
+        ctx.bad(R_dxt, "parse_dxtn|missing", "-", "function not found", "anchor gone")
+    else:
+        ctx.saw_fn(pdx)
+        lets = {}
+        tup = None
+        for l in hirq.find(pdx.hir["body"], "let"):
+            if l.get("init") is None:
+                continue
+            if l["pat"].get("k") == "bind":
+                lets[l["pat"]["name"]] = l["init"]
+            elif l["pat"].get("k") == "tuple" and "mipmap_size" in hirq.render(l["init"]):
+                tup = [s_.get("name") for s_ in l["pat"]["subs"]]
+        bl = next((nm for nm in lets if re.search(r"block", nm) and re.search(r"_n$|count|num", nm)), None)
+        if bl is None:
+            ctx.bad(R_dxt, "parse_dxtn|shape", pdx.where, "no block-count local found", "shape changed")
+        else:
+            bad = None
+            try:
+                for w_ in range(1, 10):
+                    for h_ in range(1, 10):
+                        env = {"__leaf__": (lambda r_, w_=w_, h_=h_: (w_ * h_) if "mipmap_pixels" in r_ else None)}
+                        if tup and len(tup) == 2:
+                            env[tup[0]], env[tup[1]] = w_, h_
+                        got = _ival(lets[bl], env, {k_: v_ for k_, v_ in lets.items() if k_ != bl})
+                        want = -(-w_ // 4) * -(-h_ // 4)
+                        if got != want and bad is None:
+                            bad = (w_, h_, got, want)
+            except _NoEval as e:
+                bad = ("?", "?", "not an integer formula over the level's width and height (%s)" % e, "ceil(w/4)*ceil(h/4)")
+            if bad:
+                ctx.bad(R_dxt, "parse_dxtn|block-count", "%s:%d" % (pdx.file, lets[bl]["ln"] if isinstance(lets[bl], dict) and lets[bl].get("ln") else pdx.lo), "`%s = %s` gives %s blocks for a %sx%s level; DXT stores %s" % (bl, hirq.render(lets[bl])[:60], bad[2], bad[0], bad[1], bad[3]),
+                        "levels whose sides are not multiples of 4 (6×6, 10×5, the 8×2 level of a 16×4 chain) are read short: the parsed content differs from the encoded one")
+            else:
+                ctx.ok(R_dxt, {"block_count": "%s = %s" % (bl, hirq.render(lets[bl])[:70])})
+
     # dispatch coverage
     content = next((a for a in blp.items["adts"] if a["path"].endswith("::BlpContent") and a["k"] == "enum"), None)
     variants = [v["name"] for v in content["variants"]] if content else []
